@@ -255,7 +255,7 @@ def opAtad (j : Json) : Option Json := do
     let lx := s.lhsApplyM x
     let lxm := s.lhsApplyM xm
     let nrm := fun (M : Mat α n k) => lnorm (matToList M)
-    let acc := relResOf (nrm lx) (nrm b) (nrm fun i l => b i l - lx i l)
+    let acc := s.accuracyM nrm x b
     some (ok (jObj [("woodbury", jB s.useWoodbury), ("g", gj), ("x", jV (matToList xm)),
       ("lhs_at_impl_x", jV (matToList lx)), ("lhs_at_model_x", jV (matToList lxm)), ("accuracy", jF acc)]))
 
@@ -330,6 +330,22 @@ def opAdmm (j : Json) : Option Json := do
     | none => some (err "value")
     | some f =>
       match fblockSystem zeroV f terms with
+      | none => some (err "type")
+      | some (lhs, rhs) => some (ok (jObj [("lhscols", colsOf n lhs), ("rhs", jV rhs.toList)]))
+  | "stale" =>   -- lhs assembled at the scale of construction, rhs at the current scale `scale1`
+    let s1 ← fFloat? j "scale1"
+    match f with
+    | none => some (err "value")
+    | some f =>
+      match staleScaleSystem zeroV f (Sc.ofFloat s1 : α) terms with
+      | none => some (err "type")
+      | some (lhs, rhs) => some (ok (jObj [("lhscols", colsOf n lhs), ("rhs", jV rhs.toList)]))
+  | "fblock_stale" =>
+    let s1 ← fFloat? j "scale1"
+    match f with
+    | none => some (err "value")
+    | some f =>
+      match fblockStaleSystem zeroV f (Sc.ofFloat s1 : α) terms with
       | none => some (err "type")
       | some (lhs, rhs) => some (ok (jObj [("lhscols", colsOf n lhs), ("rhs", jV rhs.toList)]))
   | "g0" =>
@@ -463,6 +479,13 @@ def opAtadValidate (j : Json) : Option Json := do
   | .ok _ => some (ok (jObj [("accepted", Json.bool true)]))
   | .error e => some (err e)
 
+def opConvValidate (j : Json) : Option Json := do
+  let a : ConvArg := { composed := ← fBool? j "composed", outerIsSum := ← fBool? j "outer_sum", innerIsConv := ← fBool? j "inner_conv",
+                       axisIsInt := ← fBool? j "axis_int" }
+  match convValidate a with
+  | .ok _ => some (ok (jObj [("accepted", Json.bool true)]))
+  | .error e => some (err e)
+
 def handler : Handler := fun op j =>
   let cplx := (fStr? j "dt") == some "c"
   match op with
@@ -478,6 +501,7 @@ def handler : Handler := fun op j =>
   | "admm_matrix" => if cplx then opAdmmMatrix (α := Cx Float) j else opAdmmMatrix (α := Float) j
   | "genobj" => if cplx then opGenObj (α := Cx Float) j else opGenObj (α := Float) j
   | "atad_validate" => opAtadValidate j
+  | "conv_validate" => opConvValidate j
   | "bisect" => opBisect j
   | "golden" => opGolden j
   | _ => none
